@@ -174,8 +174,10 @@ Section Env.
      In x (map fst (f_events f)) /\ fbmap x = false).
   Proof.
     intros Hnd. unfold feature_iter. cbn [feature_iter0 events_src].
-    destruct (fbmap x); intuition congruence.
-    destruct (fbmap x); intuition. discriminate.
+    rewrite fold_remove_In by assumption. rewrite filter_In.
+    destruct (fbmap x).
+    - split; intros [H1 H2]; [exfalso; apply H2; auto|discriminate].
+    - split; intros [H1 H2]; [auto|]. split; [assumption|]. intros [_ H]; discriminate.
   Qed.
 
   (* ---- the loop over the features -------------------------------------- *)
@@ -407,6 +409,7 @@ Section Env.
     split.
     - unfold C08.rtdc_copy. destruct (fold_left _ _ _). reflexivity.
     - destruct (rtdc_copy_events sel false il it f) as [_ Hb]. rewrite Hb.
+      clear Hb.
       induction (feature_iter sel false f) as [|x l IH]; [reflexivity|].
       cbn [flat_map]. rewrite IH, app_nil_r. unfold bev_of.
       destruct (negb (fexists x)); [reflexivity|].
@@ -640,6 +643,19 @@ Section Env.
       apply copy_preserves_metadata.
   Qed.
 End Env.
+
+(* the section generalised this lemma over variables it does not mention *)
+Lemma condense_feature_set (fsc : Z -> bool) sa sb loaded basin anc g x :
+  In x (condense_features fsc sa sb loaded basin anc g) <->
+  fsc x = true /\
+  (In x loaded
+   \/ (sb = true /\ In x basin /\ ~ In x (map fst (f_bevents g)))
+   \/ (sa = true /\ In x anc /\ ~ In x (map fst (f_bevents g)))).
+Proof.
+  exact (condense_features_In (fun _ => true) (fun _ => true) (fun _ => true)
+           (fun _ => true) (fun k _ => k) fsc (fun _ => []) sa sb loaded basin
+           anc g x).
+Qed.
 
 (* ---------------------------------------------------------------------- *)
 (* non-vacuity                                                              *)
